@@ -1,1 +1,78 @@
-Theorem placeholder_c01 : True. Proof. exact I. Qed.
+(* C01 — The expression algebra preserves bit-vector meaning.
+   Reference semantics: Amoco.Exp.Sem.denote (fixed-width two's-complement arithmetic, from the property text).
+   Models: Amoco.Exp.Cst (the cst class), Amoco.Exp.Eval (exp.eval) — both compared with the implementation on
+   every run (values, widths AND sign flags), see harness/c01.py.  The rewrite rules of the simplifier are
+   covered by the Rules file (separate theorems) and, end to end, by checking the implementation's simplified
+   trees against `denote` inside Coq. *)
+From Coq Require Import ZArith List Bool.
+Import ListNotations.
+Require Import Amoco.Exp.Sem Amoco.Exp.Cst Amoco.Exp.CstProofs Amoco.Exp.Eval Amoco.Exp.EvalProofs.
+Open Scope Z_scope.
+
+(* --- constant folding: every cst operator, every width, any sign flags on the operands --- *)
+Theorem C01_cst_add_sub_mul : forall o a b r, wfcP a -> wfcP b -> (o = Add \/ o = Sub \/ o = Mul) ->
+  cst_binop o a b = ROk r -> Some (cv r) = ref_binop o (csz a) (cv a) (cv b) None /\ csz r = csz a.
+Proof. exact cst_arith. Qed.
+Print Assumptions C01_cst_add_sub_mul.
+
+Theorem C01_cst_and_or_xor : forall o a b r, wfcP a -> wfcP b -> (o = And \/ o = Or \/ o = Xor) ->
+  cst_binop o a b = ROk r -> Some (cv r) = ref_binop o (csz a) (cv a) (cv b) None /\ csz r = csz a.
+Proof. exact cst_logic. Qed.
+Print Assumptions C01_cst_and_or_xor.
+
+(* shifts by ANY amount, including amounts >= the width and amount constants carrying the sign flag *)
+Theorem C01_cst_shl : forall a b r, wfcP a -> wfcP b -> cst_binop Shl a b = ROk r ->
+  Some (cv r) = ref_binop Shl (csz a) (cv a) (cv b) None /\ csz r = csz a.
+Proof. exact cst_shl. Qed.
+Print Assumptions C01_cst_shl.
+Theorem C01_cst_shr : forall a b r, wfcP a -> wfcP b -> cst_binop Shr a b = ROk r ->
+  Some (cv r) = ref_binop Shr (csz a) (cv a) (cv b) None /\ csz r = csz a.
+Proof. exact cst_shr. Qed.
+Print Assumptions C01_cst_shr.
+Theorem C01_cst_asr : forall a b r, wfcP a -> wfcP b -> cst_binop Asr a b = ROk r ->
+  Some (cv r) = ref_binop Asr (csz a) (cv a) (cv b) None /\ csz r = csz a.
+Proof. exact cst_asr. Qed.
+Print Assumptions C01_cst_asr.
+
+Theorem C01_cst_eq_neq_unsigned_compare : forall o a b r, wfcP a -> wfcP b -> (o = Eq \/ o = Neq \/ o = Ltu \/ o = Geu) ->
+  cst_binop o a b = ROk r -> Some (cv r) = ref_binop o (csz a) (cv a) (cv b) None /\ csz r = 1.
+Proof. exact cst_eq_neq_ltu_geu. Qed.
+Print Assumptions C01_cst_eq_neq_unsigned_compare.
+
+Theorem C01_cst_ordered_and_widening_mul : forall o a b r s, wfcP a -> wfcP b -> csf a = s -> csf b = s -> csz a = csz b ->
+  (o = Lt \/ o = Le \/ o = Gt \/ o = Ge \/ o = Mul2) ->
+  cst_binop o a b = ROk r -> Some (cv r) = ref_binop o (csz a) (cv a) (cv b) (Some s) /\ csz r = op_width o (csz a).
+Proof. exact cst_ordered. Qed.
+Print Assumptions C01_cst_ordered_and_widening_mul.
+
+Theorem C01_cst_unsigned_div_mod : forall o a b r, wfcP a -> wfcP b -> csf a = false -> csf b = false -> csz a = csz b ->
+  (o = Div \/ o = Mod) -> cst_binop o a b = ROk r ->
+  Some (cv r) = ref_binop o (csz a) (cv a) (cv b) (Some false) /\ csz r = csz a.
+Proof. exact cst_udiv_umod. Qed.
+Print Assumptions C01_cst_unsigned_div_mod.
+
+Theorem C01_cst_neg_not : forall o a, wfcP a -> cv (cst_unop o a) = ref_unop o (csz a) (cv a) /\ csz (cst_unop o a) = csz a.
+Proof. exact cst_unop_correct. Qed.
+Print Assumptions C01_cst_neg_not.
+
+(* --- evaluation: for every well-sized covered tree (any shape, any widths), every valuation of its registers:
+       if evaluation returns a constant it is the value of ordinary fixed-width arithmetic, with the tree's width --- *)
+Theorem C01_eval_sound : forall env e c, wf e = true -> covered e = true -> eval env e = EOk c ->
+  csz c = esize e /\ (0 <= cv c < 2 ^ esize e) /\ forall d, denote env e = Some d -> cv c = d.
+Proof.
+  intros env e c W Cv H. destruct (eval_sound env e c W Cv H) as ((Wn & Wv) & S & _ & D).
+  split; [exact S|]. split; [rewrite <- S; exact Wv|exact D].
+Qed.
+Print Assumptions C01_eval_sound.
+
+(* Non-vacuity: a width-7 and a width-128 tree through shifts >= width, a signed comparison and a composite. *)
+Example C01_nonvacuous :
+  let e7 := EOp Add (EOp Shl (EReg 0 7 false) (ECst 9 7 false) 7 false) (EUop Neg (EReg 1 7 false) 7 false) 7 false in
+  let e128 := ETst (EOp Lt (EReg 0 128 true) (ECst (2 ^ 128 - 5) 128 true) 1 true)
+                   (ECat (EReg 1 64 false) (ESlc (EReg 0 128 true) 64 64 true) 128 true) (ECst 7 128 false) 128 false in
+  let env := fun n => if n =? 0 then 2 ^ 127 + 3 else 5 in
+  wf e7 = true /\ covered e7 = true /\ eval env e7 = EOk (C 123 7 false) /\ denote env e7 = Some 123 /\
+  wf e128 = true /\ covered e128 = true /\
+  eval env e128 = EOk (C (5 + 2 ^ 127 * 2 ^ 0 + (2 ^ 63) * 2 ^ 64 - 2 ^ 127) 128 false) /\
+  denote env e128 = Some (5 + 2 ^ 63 * 2 ^ 64).
+Proof. vm_compute. repeat split; reflexivity. Qed.
